@@ -13,6 +13,7 @@ mod c09;
 mod c12;
 mod c13;
 mod c16;
+mod c20;
 mod disk;
 mod framework;
 mod model;
@@ -151,6 +152,7 @@ fn main() {
         "C12" => dispatch(&c12::C12, &opts, replay_file),
         "C13" => dispatch(&c13::C13, &opts, replay_file),
         "C16" => dispatch(&c16::C16, &opts, replay_file),
+        "C20" => dispatch(&c20::C20, &opts, replay_file),
         _ => {
             eprintln!("pkgsim: unknown or unclaimed property {}", prop);
             2
